@@ -47,11 +47,21 @@ class V(object):
 VAL = V()
 
 
+class Neg(object):
+    """a small negative integer (compact representation)"""
+    def __repr__(self):
+        return "<negative value>"
+
+
+NEG = Neg()
+
+
 class HelperWalk(object):
-    def __init__(self, tu, cls, signed):
+    def __init__(self, tu, cls, signed, compact=False):
         self.tu = tu
         self.cls = cls
         self.signed = signed
+        self.compact = compact      # single-digit ("compact") representation
         self.exc = None
         self.out = {}
         self.depth = 0
@@ -105,6 +115,18 @@ class HelperWalk(object):
             return VAL if c == "inrange" else (1 << 64) - 1
         if name in ("PyLong_AsUnsignedLongLongMask",):
             return VAL       # never fails, never checks: every class "succeeds"
+        if name in ("PyUnstable_Long_IsCompact", "_PyLong_IsCompact"):
+            if c == "notint":
+                raise AnalysisError("CONV-HELPER: %s on an object that is not an int" % name)
+            return int(self.compact)
+        if name in ("PyUnstable_Long_CompactValue", "_PyLong_CompactValue"):
+            if not self.compact:
+                raise AnalysisError("CONV-HELPER: %s on a non-compact int" % name)
+            if c == "inrange":
+                return VAL
+            if c == "sentinel":
+                return self.sentinel()
+            return NEG            # unsigned family, small negative int
         return None
 
     # -- expressions ---------------------------------------------------------
@@ -139,6 +161,12 @@ class HelperWalk(object):
             return int(self.truth(self.ev(e.kids[0], env)) or self.truth(self.ev(e.kids[1], env)))
         if k == "BinaryOperator" and e.v in ("==", "!=", "<", ">", "<=", ">="):
             l, r = self.ev(e.kids[0], env), self.ev(e.kids[1], env)
+            if l is NEG or r is NEG:
+                o = r if l is NEG else l
+                if isinstance(o, int) and o >= 0:
+                    lt = l is NEG       # NEG < o
+                    return int({"<": lt, "<=": lt, ">": not lt, ">=": not lt, "==": False, "!=": True}[e.v])
+                raise AnalysisError("CONV-HELPER: comparison %s of a negative value" % text(e))
             if l is VAL or r is VAL:
                 o = r if l is VAL else l
                 if o is VAL:
@@ -165,8 +193,8 @@ class HelperWalk(object):
         raise AnalysisError("CONV-HELPER: expression %s (%s) at %s:%s" % (text(e)[:60], k, e.f, e.l))
 
     def truth(self, v):
-        if v is VAL:
-            return True      # generic in-range value: callers only test results of calls
+        if v is VAL or v is NEG:
+            return True      # generic value: callers only test results of calls
         return bool(v)
 
     # -- statements ----------------------------------------------------------
@@ -220,22 +248,34 @@ def conv_helpers(tu):
     for h in sorted(present):
         sign, kind = HELPERS[h]
         fn = tu.funcs[h]
+        signed = sign == "signed"
+        cases = []
         for cls in CLASSES:
+            if cls == "inrange":
+                cases += [(cls, False), (cls, True)]
+            elif cls == "sentinel":
+                cases.append((cls, signed))        # -1 is compact, 2**64-1 is not
+            elif cls == "toosmall" and not signed:
+                cases += [(cls, False), (cls, True)]   # small negative ints are compact
+            else:
+                cases.append((cls, False))
+        for cls, compact in cases:
             n += 1
-            w = HelperWalk(tu, cls, sign == "signed")
+            w = HelperWalk(tu, cls, signed, compact)
             args = ["OB"] + (["value"] if kind == "convert" else [])
             ret = w.call(h, args)
             good = cls in ("inrange", "sentinel")
             want_val = VAL if cls == "inrange" else w.sentinel()
             bad = None
+            descr = (DESCR[cls] % w.sentinel()) + (" (single-digit representation)" if compact else "")
             if bool(ret) != good:
-                bad = "returns %s for %s" % (ret, DESCR[cls] % w.sentinel())
+                bad = "returns %s for %s" % (ret, descr)
             elif kind == "convert" and good and (w.out.get("value") is not want_val and w.out.get("value") != want_val):
-                bad = "stores %r for %s" % (w.out.get("value"), DESCR[cls] % w.sentinel())
+                bad = "stores %r for %s" % (w.out.get("value"), descr)
             elif kind == "convert" and good and w.exc is not None:
-                bad = "accepts %s but leaves %s pending" % (DESCR[cls] % w.sentinel(), w.exc)
+                bad = "accepts %s but leaves %s pending" % (descr, w.exc)
             elif kind == "convert" and not good and w.exc != "TypeError":
-                bad = "rejects %s with %s pending (TypeError required)" % (DESCR[cls] % w.sentinel(), w.exc or "no exception")
+                bad = "rejects %s with %s pending (TypeError required)" % (descr, w.exc or "no exception")
             if bad:
                 findings.append(dict(
                     rule="CONV-HELPER", function=h, file=fn.f, line=fn.l,
